@@ -184,14 +184,30 @@ func solveStaged(vc VC, file string, timeout time.Duration, first SolveResult) S
 			lemmas = append(lemmas, "(assert (not "+c+"))")
 		}
 	}
-	if len(lemmas) == 0 {
+	if len(lemmas) > 0 {
+		q := vc.StageBase + "(assert " + vc.StageHyp + ")\n" + strings.Join(lemmas, "\n") + "\n(assert (not " + vc.StageGoal + "))\n(check-sat)\n"
+		r := solve(q, strings.TrimSuffix(file, ".smt2")+".staged.smt2", timeout, false)
+		if r.Status == "unsat" {
+			r.Output = fmt.Sprintf("discharged after establishing %d unreachable return points", len(lemmas))
+			return r
+		}
+	}
+	// case split over the return points (the base asserts that one of them is taken): every case on its own
+	if len(vc.StageCands) < 2 || len(vc.StageCands) > 24 {
 		return first
 	}
-	q := vc.StageBase + "(assert " + vc.StageHyp + ")\n" + strings.Join(lemmas, "\n") + "\n(assert (not " + vc.StageGoal + "))\n(check-sat)\n"
-	r := solve(q, strings.TrimSuffix(file, ".smt2")+".staged.smt2", timeout, false)
-	if r.Status == "unsat" {
-		r.Output = fmt.Sprintf("discharged after establishing %d unreachable return points", len(lemmas))
-		return r
+	var total float64
+	last := first
+	for i, c := range vc.StageCands {
+		q := vc.StageBase + "(assert " + vc.StageHyp + ")\n(assert " + c + ")\n(assert (not " + vc.StageGoal + "))\n(check-sat)\n"
+		r := solve(q, fmt.Sprintf("%s.case%d.smt2", strings.TrimSuffix(file, ".smt2"), i), timeout, false)
+		total += r.Seconds
+		if r.Status != "unsat" {
+			return first
+		}
+		last = r
 	}
-	return first
+	last.Seconds = total
+	last.Output = fmt.Sprintf("discharged by a case split over the %d return points", len(vc.StageCands))
+	return last
 }
